@@ -808,13 +808,23 @@ package router
 // initUpstream: an upstream is registered under its tag only; a missing or repeated tag is an error and
 // registers nothing.
 //@ func (r *router) initUpstream(cfg *UpstreamConfig) (err error)
-//@   props C10
+//@   props C10 C17
 //@   requires r != nil && cfg != nil && r.upstreams != nil
 //@   modifies obj(r.upstreams)
 //@   ensures [C10:missing-tag-rejected] len(cfg.Tag) == 0 ==> err != nil
 //@   ensures [C10:dup-tag-rejected] old(has(r.upstreams, cfg.Tag)) ==> err != nil
 //@   ensures [C10:registered-under-tag] err == nil ==> has(r.upstreams, cfg.Tag) && uwOK(r.upstreams[cfg.Tag])
 //@   ensures [C10:others-kept] forallkey(k, r.upstreams, (err != nil || k != keyOf(r.upstreams, cfg.Tag)) ==> has(r.upstreams, k) == old(has(r.upstreams, k)) && r.upstreams[k] == old(r.upstreams[k]))
+// the upstream registered under the tag is the one built from this entry: its address, its dial_addr override and the
+// TLS configuration made from its own TLS settings (no certificate demanded of an upstream entry)
+//@   ghost gTls *tls.Config = nil
+//@   ghost gU upstream.Upstream = nil
+//@   aftercall makeTlsConfig?: gTls = ret0
+//@   aftercall NewUpstream?: gU = ret0
+//@   callsite makeTlsConfig?: [C17:tls-settings-of-this-entry] arg0 == &cfg.Tls && arg1 == false
+//@   callsite NewUpstream?: [C17:reached-as-this-entry-says] arg0 == cfg.Addr && arg1.DialAddr == cfg.DialAddr && arg1.TLSConfig == gTls
+//@   callsite wrapUpstream?: [C10:the-upstream-of-this-entry-under-its-tag] arg0 == cfg.Tag && arg1 == gU
+//@   ensures [C10:registered-wrapper-wraps-that-upstream] err == nil ==> r.upstreams[cfg.Tag].u == gU && r.upstreams[cfg.Tag].tag == cfg.Tag
 
 // loadDomainSet: a domain set is registered under its tag only; a missing or repeated tag is an error.
 //@ func (r *router) loadDomainSet(cfg *DomainSetConfig) (err error)
